@@ -2,17 +2,18 @@ import BSModel.Driver.Util
 import BSModel.Model.Entities
 import BSModel.Model.Reader
 import BSModel.Gen.Entities
+import BSModel.Gen.EntitiesFormatters
 namespace BS.Drv.C09
 open BS.Entities BS.Reader BS.Drv
 
-def T : Tbl := BS.Gen.htmlTable
-def X : List (Nat × PStr) := BS.Gen.xmlTable
+def T : Tbl := BS.Gen.C09.htmlTable
+def X : List (Nat × PStr) := BS.Gen.C09.xmlTable
 
 def showO : Option PStr → String
   | none => "none"
   | some s => showL s
 
-def regOf (s : String) : List RegEntry := if s == "x" then BS.Gen.xmlRegistry else BS.Gen.htmlRegistry
+def regOf (s : String) : List RegEntry := if s == "x" then BS.Gen.C09.xmlRegistry else BS.Gen.C09.htmlRegistry
 
 def handle : List String → String
   | ["xml", s] => showL (substXml X (cps s))
@@ -20,6 +21,7 @@ def handle : List String → String
   | ["xmlce", s] => showL (substXmlCE T X (cps s))
   | ["html", s] => showL (substHtml T (cps s))
   | ["html5", s] => showL (substHtml5 T (cps s))
+  | ["html5old", s] => showL (substHtml5Old T (cps s))
   | ["html5raw", s] => showL (substHtml5Raw T (cps s))
   | ["quote", s] => showL (quoteAttr (cps s))
   | ["readtext", s] => showL (readText T false 0 (cps s))
@@ -32,10 +34,15 @@ def handle : List String → String
     match findFormatter (regOf reg) (named == "1") (cps name) with
     | none => "no-formatter"
     | some e => showL (formatterSubstitute T X e (if parent == "none" then none else some (cps parent)) (cps s))
+  | ["fmtcfg", lang, fn, cdataArg, parent, s] =>
+    -- a custom Formatter(language, entity_substitution=fn, cdata_containing_tags=cdataArg)
+    let arg : Option (List PStr) := if cdataArg == "none" then none else some ((splitNE ";" cdataArg).map cps)
+    let e := mkFormatter BS.Gen.C09.htmlDefaultCdata (lang == "x") fn.toNat! arg
+    showL (formatterSubstitute T X e (if parent == "none" then none else some (cps parent)) (cps s))
   | ["all", s] =>
     let s := cps s
     let subs := [substXml X s, substHtml T s, substHtml5 T s]
-    let head := [substXml X s, substXmlCE T X s, substHtml T s, substHtml5 T s, substHtml5Raw T s, quoteAttr s]
+    let head := [substXml X s, substXmlCE T X s, substHtml T s, substHtml5 T s, substHtml5Raw T s, quoteAttr s, substHtml5Old T s]
     let reads := subs.flatMap fun o => [showL (readText T false 0 o), showL (quoteAttr o), showO (readAttr T (quoteAttr o))]
     let raw := [if s.contains 60 then "skip" else showL (readText T false 0 s), showO (readAttr T (quoteAttr s))]
     " ".intercalate (head.map showL ++ reads ++ raw)
